@@ -26,11 +26,11 @@ ASSUME = ['spec/layouts.json is a correct transcription of IEEE 1722-2016 / acf-
           'nine worlds: gcc -O2 -funsigned-char -march=x86-64-v3 with the BSD/newlib endian constants defined, and an ILP32 one (gcc -m32, freestanding, own minimal C runtime; reduced lattice) and gcc -O2 (full lattice; the reduced lattice again with the object at a 16-byte boundary + 1 and + 4), gcc -O0 (the project\'s default build), gcc -O3 -DNDEBUG (CMake Release), clang -O2, gcc -O2 without predefined byte-order macros, gcc -O2 -fshort-enums, and clang -O1 with a 32-bit long (LLP64 data model), the latter six with the reduced lattice; other worlds are the subject of C14/C15']
 
 
-def build(prop, opt='-O2', fresh=True, defs=(), cc='gcc', tag='', cxx_callers=False):
+def build(prop, opt='-O2', fresh=True, defs=(), cc='gcc', tag='', cxx_callers=False, caller_defs=(), soft=False):
     b = core.fresh_dir(os.path.join(core.ROOT, 'build', prop)) if fresh else os.path.join(core.ROOT, 'build', prop)
     g = os.path.join(b, 'gen')
     rep = core.run_gen(g)
-    wobjs = core.build_world(os.path.join(b, 'world' + opt + tag + ('' if cc == 'gcc' else '-' + cc)), g, cc=cc, cflags=(opt, '-g'), world_srcs=['wrap_generic.c'], defines=defs, cxx_callers=cxx_callers)
+    wobjs = core.build_world(os.path.join(b, 'world' + opt + tag + ('' if cc == 'gcc' else '-' + cc)), g, cc=cc, cflags=(opt, '-g'), world_srcs=['wrap_generic.c'], defines=defs, cxx_callers=cxx_callers, caller_defs=caller_defs, soft=soft)
     nobjs = core.build_native(os.path.join(b, 'native'), g, ['common.c', 'explore_fields.c'])
     exe = core.link(os.path.join(b, 'explore_fields' + opt + tag + ('' if cc == 'gcc' else cc)), nobjs + wobjs)
     return exe, rep
@@ -106,8 +106,13 @@ def alias_contexts(res, bdir):
 def make_replayer(exe, tier='quick'):
     def rp(case, key):
         outs = []
+        if case.split(':')[1:2] == ['9']:
+            return True, 'established outside the explorer (compile-time probe or example program); ./vcheck replay re-runs it'
         for _ in range(2):
-            r = subprocess.run([exe, '--tier', tier, '--case', case], stdout=subprocess.PIPE, stderr=subprocess.PIPE, text=True)
+            try:
+                r = subprocess.run([exe, '--tier', tier, '--case', case], stdout=subprocess.PIPE, stderr=subprocess.PIPE, text=True, timeout=120)
+            except subprocess.TimeoutExpired:
+                return True, 'fresh-process replay not finished within 120 s'
             outs.append((r.returncode, [l for l in r.stdout.splitlines() if l.startswith(('OBS', 'V\t'))]))
         if outs[0] != outs[1]:
             return False, 'NON-DETERMINISTIC: two fresh-process replays of the same case differ (hidden state?)'
@@ -153,9 +158,24 @@ def run(prop, tier):
     # that have a C++ rendering of their own)
     exexx, _ = build(prop, '-O2', fresh=False, tag='-cxxcallers', cxx_callers=True)
     res = core.run_slices(exexx, ['--suite', prop, '--tier', 'lite' if tier == 'quick' else 'quick'], timeout=timeout, result=res, tag='C++ callers (g++ -O2)')
+    # configuration switches of the public headers (a name a header tests that nothing defines): callers compiled with the
+    # switch on, library as shipped
+    for pb in core.platform_branches():
+        res.incomplete.append('code behind the platform macro %s is compiled in no world of this sandbox' % pb)
+    for sw in core.header_switches():
+        try:
+            exes, _ = build(prop, '-O2', fresh=False, tag='-sw-' + sw, caller_defs=('-D%s=1' % sw,), soft=True)
+            res = core.run_slices(exes, ['--suite', prop, '--tier', 'lite' if tier == 'quick' else 'quick'], timeout=timeout, result=res, tag='callers compiled with -D%s' % sw)
+            res.notes['header switch ' + sw] = 'explored (callers compiled with -D%s=1)' % sw
+        except core.WorldUnavailable as e:
+            res.incomplete.append('world left out: ' + str(e))
     # the same calls through the parenthesised function name: the exported function, not a function-like macro of that name
     res = core.run_slices(exe, ['--suite', prop, '--tier', 'lite' if tier == 'quick' else 'quick', '--callmode', '1'], timeout=timeout, result=res, tag='calls through (name)(...)')
-    res = core.run_slices(exe, ['--suite', prop, '--tier', 'lite' if tier == 'quick' else 'quick', '--callmode', '2'], timeout=timeout, result=res, tag='pointer arguments spelled as untyped sums')
+    try:
+        exeu, _ = build(prop, '-O2', fresh=False, tag='-untyped', caller_defs=('-DW_UNTYPED',), soft=True)
+        res = core.run_slices(exeu, ['--suite', prop, '--tier', 'lite' if tier == 'quick' else 'quick'], timeout=timeout, result=res, tag='pointer arguments spelled as untyped sums')
+    except core.WorldUnavailable as e:
+        res.incomplete.append('world left out: ' + str(e))
     # the object under test at other addresses (16-byte boundary + 1 and + 4; all eight residues are C15's subject)
     for off in (1, 4):
         res = core.run_slices(exe, ['--suite', prop, '--tier', 'lite' if tier == 'quick' else 'quick', '--off', str(off)], timeout=timeout, result=res, tag='object at a 16-byte boundary + %d' % off)
